@@ -183,7 +183,7 @@ REVERTS = [
      ("0ad9135", ["C09"]), ("6e33d4e", ["C10"]), ("c6108cc", ["C11"]), ("e362918", ["C11"]),
     ("e7f960c", ["C20"]), ("da6a982+b4313ab", ["C04"]), ("4f0c1c6", ["C10"]), ("1c6f396", ["C19"]), 
     ("fd90d27", ["C04"]), ("1392b8b", ["C05", "C06"]), ("eb1285e", ["C05"]), ("ed11f52", ["C14", "C07"]), ("da6a982", ["C14", "C07"]),
-    ("fc4462d", ["C15"]), ("bc34c9c", ["C11"]), ("ded9070+989e126", ["C18"]), ("4b15b99", ["C19"]), ("e81c9c4", ["C16"]), ("09d4462", ["C11"]), ("d43d43e", ["C05", "C06"]), ("8acb033", ["C10"]), ("38d48b4", ["C14"]), ("c16fd62", ["C04"]), ("0034e06", ["C04"]), ("470f494", ["C08"]),
+    ("fc4462d", ["C15"]), ("3125173", ["C11"]), ("bc34c9c", ["C11"]), ("ded9070+989e126", ["C18"]), ("4b15b99", ["C19"]), ("e81c9c4", ["C16"]), ("09d4462", ["C11"]), ("d43d43e", ["C05", "C06"]), ("8acb033", ["C10"]), ("38d48b4", ["C14"]), ("c16fd62", ["C04"]), ("0034e06", ["C04"]), ("470f494", ["C08"]),
 ]
 
 
